@@ -55,6 +55,10 @@ func genC09(ctx *Ctx) {
 			return false
 		}
 		nrows, ncols := 1+ctx.Rnd.Intn(3), 1+ctx.Rnd.Intn(3)
+		big := i%60 == 59 // scale: a table of dozens of rows and columns with longer fields, checked by the direct oracle only
+		if big {
+			nrows, ncols = 20+ctx.Rnd.Intn(60), 5+ctx.Rnd.Intn(30)
+		}
 		var text strings.Builder
 		var rows sx.List
 		nontrivial := false
@@ -62,6 +66,9 @@ func genC09(ctx *Ctx) {
 			var row sx.List
 			for c := 0; c < ncols; c++ {
 				n := ctx.Rnd.Intn(5)
+				if big && ctx.Rnd.Intn(4) == 0 {
+					n = ctx.Rnd.Intn(200)
+				}
 				f := make([]rune, n)
 				needQuote := false
 				for k := range f {
@@ -100,6 +107,10 @@ func genC09(ctx *Ctx) {
 		if ctx.Rnd.Intn(2) == 0 { // the tokenizer object reaches this configuration through a history of setter calls, some of them refused
 			cfg = csvHistory(ctx.Rnd, cfg)
 			ctx.Count("configured-by-history")
+		}
+		if big {
+			ctx.OracleOnly(sx.L(sx.I(2), sx.I(64), sx.S(text.String()), cfg, rows), fmt.Sprintf("scale: a table of %d rows x %d columns", nrows, ncols))
+			continue
 		}
 		ctx.Input(sx.L(sx.I(2), sx.I(64), sx.S(text.String()), cfg, rows), nontrivial)
 	}
